@@ -483,6 +483,20 @@ class _ViaWrapper:
         return call
 
 
+def _nflag(cfg):
+    """normalize_factors in the spelling the configuration asks for: the flag is a truth value, not the singleton True / False
+    (np.bool_ is what np.any(...) or a comparison of NumPy scalars hands over; 1 / 0 what a command line parser does)."""
+    v = bool(cfg.get("normalize", False))
+    form = cfg.get("normalize_form", "bool")
+    if form == "np_bool":
+        return np.bool_(v)
+    if form == "int":
+        return int(v)
+    if form == "none" and not v:
+        return None
+    return v
+
+
 def _run_alg(cfg, data, cap, with_cb, tl, D):
     if cfg.get("wrapper"):
         D = _ViaWrapper(D, refit=cfg.get("wrapper_refit") or False)
@@ -515,7 +529,7 @@ def _run_alg(cfg, data, cap, with_cb, tl, D):
         out["rawinit"] = rawinit
     if alg == "parafac":
         kw = dict(n_iter_max=cap, init=init, tol=_tol(cfg), random_state=seed, return_errors=True,
-                  normalize_factors=cfg.get("normalize", False), linesearch=cfg.get("linesearch", False),
+                  normalize_factors=_nflag(cfg), linesearch=cfg.get("linesearch", False),
                   fixed_modes=fixed, l2_reg=0)
         if cfg.get("sparsity"):
             kw["sparsity"] = cfg["sparsity"]
@@ -550,12 +564,12 @@ def _run_alg(cfg, data, cap, with_cb, tl, D):
         out["errs"] = errs
     elif alg == "nn_parafac":
         dec, errs = D.non_negative_parafac(data, rank, n_iter_max=cap, init=init, tol=_tol(cfg), random_state=seed,
-                                           return_errors=True, normalize_factors=cfg.get("normalize", False), fixed_modes=fixed)
+                                           return_errors=True, normalize_factors=_nflag(cfg), fixed_modes=fixed)
         out["decomp"] = ("cp", dec[0], list(dec[1]))
         out["errs"] = errs
     elif alg == "nn_parafac_hals":
         kw = dict(n_iter_max=cap, init=init, tol=_tol(cfg), random_state=seed, return_errors=True,
-                  normalize_factors=cfg.get("normalize", False), fixed_modes=fixed, exact=cfg.get("exact", False))
+                  normalize_factors=_nflag(cfg), fixed_modes=fixed, exact=cfg.get("exact", False))
         if "nn_modes" in cfg:
             kw["nn_modes"] = cfg["nn_modes"] if cfg["nn_modes"] == "all" else set(cfg["nn_modes"])
         if cfg.get("sparsity_coefficients") is not None:
@@ -635,10 +649,10 @@ def _run_alg(cfg, data, cap, with_cb, tl, D):
                 dec, errs = D.tucker(data, rank, **kw)
         elif alg == "nn_tucker":
             dec, errs = D.non_negative_tucker(data, rank, n_iter_max=cap, init=init, tol=_tol(cfg), random_state=seed,
-                                              return_errors=True, normalize_factors=cfg.get("normalize", False))
+                                              return_errors=True, normalize_factors=_nflag(cfg))
         else:
             kw = dict(n_iter_max=cap, init=init, tol=_tol(cfg), random_state=seed, return_errors=True,
-                      normalize_factors=cfg.get("normalize", False), fixed_modes=fixed, exact=cfg.get("exact", False),
+                      normalize_factors=_nflag(cfg), fixed_modes=fixed, exact=cfg.get("exact", False),
                       algorithm=cfg.get("algorithm", "fista"))
             if cfg.get("sparsity_coefficients") is not None:
                 kw["sparsity_coefficients"] = list(cfg["sparsity_coefficients"])
@@ -678,7 +692,7 @@ def _run_alg(cfg, data, cap, with_cb, tl, D):
                 init = (None if w is None else w.copy(), [np.array(f) for f in p2[1]], [np.array(P) for P in p2[2]])
         out["rawinit"] = rawinit
         kw = dict(n_iter_max=cap, init=init, tol=_tol(cfg), random_state=seed, return_errors=True,
-                  normalize_factors=cfg.get("normalize", False), n_iter_parafac=cfg.get("n_iter_parafac", 5),
+                  normalize_factors=_nflag(cfg), n_iter_parafac=cfg.get("n_iter_parafac", 5),
                   linesearch=cfg.get("linesearch", False))
         if cfg.get("nn_modes") is not None:
             kw["nn_modes"] = cfg["nn_modes"] if cfg["nn_modes"] == "all" else list(cfg["nn_modes"])
@@ -712,7 +726,7 @@ def _run_alg(cfg, data, cap, with_cb, tl, D):
     elif alg == "cmtf":
         X, Y = data
         dec, mat, errs = D.coupled_matrix_tensor_3d_factorization(X, Y, rank, init=cfg["init"], n_iter_max=cap, tol=_tol(cfg),
-                                                                  normalize_factors=cfg.get("normalize", False))
+                                                                  normalize_factors=_nflag(cfg))
         out["decomp"] = ("cmtf", dec[0], list(dec[1]), mat[0], list(mat[1]))
         out["errs"] = errs
     else:
@@ -1145,6 +1159,9 @@ def driver_configs(tier, seed, algs=None):
         c = {"alg": alg, "seed": int(rng.randint(0, 10**6))}
         c.update(kw)
         c["id"] = "%s-%03d" % (alg, len([x for x in cfgs if x["alg"] == alg]))
+        if "normalize" in c and "normalize_form" not in c:
+            # the SPELLING of the flag rotates (deterministically, not from the random stream): True/False, np.bool_, 1/0
+            c["normalize_form"] = ("bool", "np_bool", "int")[len(cfgs) % 3]
         cfgs.append(c)
 
     shapes = {2: [[5, 4]], 3: [[4, 5, 3], [3, 3, 4]], 4: [[3, 4, 2, 3]]}
@@ -1170,6 +1187,11 @@ def driver_configs(tier, seed, algs=None):
         add("parafac", shape=[4, 5, 3], rank=2, data="generic", init="svd", tol="zero", mask=True)
         add("parafac", shape=[4, 5, 3], rank=2, data="generic", init="user", init_weights="none", tol="zero", fixed=[0], callback=True)
         add("parafac", shape=[4, 5, 3], rank=2, data="generic", init="user", init_weights="ones", tol="loose", fixed=[1])
+        # negative numbers in fixed_modes name no mode (the routine compares mode NUMBERS): the sweep and the error bookkeeping
+        # are those of the remaining entries; last two modes of equal size, so that pairing the wrong factor would not even raise
+        for shp, fx in (([4, 3, 3], [-1]), ([3, 4, 4], [-1, 0]), ([4, 3, 3], [-2]), ([3, 3, 3], [-1, -3])):
+            add("parafac", shape=shp, rank=2, data="generic", init="user", init_weights="none", tol="zero", fixed=fx, callback=True)
+            add("parafac", shape=shp, rank=2, data="lowrank", init="user", init_weights="ones", tol="tiny", fixed=fx, normalize=True)
         add("parafac", shape=[4, 5, 3], rank=3, data="generic", init="svd", tol="zero", orthogonalise=True)
         add("parafac", shape=[4, 5, 3], rank=2, data="generic", init="random", tol="loose", normalize=True, tol_value=1e-2)
         # ---- non-negative CP (MU and HALS)
@@ -1639,6 +1661,16 @@ def objseq_cases(tier, seed):
         cases.append({"id": "tkreg-%03d" % k, "kind": "tucker_regressor", "seed": int(rng.randint(0, 10**6)),
                       "shape": [[4, 3], [3, 2, 3], [3, 4]][k % 3], "samples": int(rng.randint(8, 14)), "rank": int(rng.randint(1, 3)),
                       "reg": [0.1, 1.0, 10.0][k % 3]})
+    # the ridge strength at its boundary: reg_W = 0 is plain least squares (the objective is then the residual alone);
+    # well-posed problems (many more samples than unknowns), longer prefix runs
+    for k in range(n if tier == "thorough" else 10):
+        order = 2 + k % 2
+        cases.append({"id": "tkreg0-%03d" % k, "kind": "tucker_regressor", "seed": int(rng.randint(0, 10**6)),
+                      "shape": [int(v) for v in rng.randint(3, 6, size=order)], "samples": int(rng.randint(60, 120)), "rank": 2,
+                      "reg": 0.0, "sweeps": 12, "noise": 0.1, "xscale": [1.0, 0.25, 0.0625][k % 3]})
+        cases.append({"id": "cpreg0-%03d" % k, "kind": "cp_regressor", "seed": int(rng.randint(0, 10**6)),
+                      "shape": [int(v) for v in rng.randint(3, 6, size=order)], "samples": int(rng.randint(60, 120)), "rank": 2,
+                      "reg": 0.0, "sweeps": 12, "noise": 0.1, "xscale": [1.0, 0.25, 0.0625][k % 3]})
     return cases
 
 
@@ -1670,15 +1702,15 @@ def objseq_execute(c):
     else:
         from tensorly.regression import CPRegressor, TuckerRegressor
         shape = tuple(c["shape"])
-        X = rng.standard_normal((c["samples"],) + shape)
+        X = rng.standard_normal((c["samples"],) + shape) * c.get("xscale", 1.0)     # (the units of the covariates: powers of two)
         Wtrue = rng.standard_normal(shape)
         yshape = tuple(c.get("yshape", []))
         if yshape:
             Wtrue = rng.standard_normal(shape + yshape)
             y = np.tensordot(X, Wtrue, axes=len(shape)) + 0.05 * rng.standard_normal((c["samples"],) + yshape)
         else:
-            y = np.tensordot(X, Wtrue, axes=len(shape)) + 0.05 * rng.standard_normal(c["samples"])
-        for k in range(1, 9):
+            y = np.tensordot(X, Wtrue, axes=len(shape)) + c.get("noise", 0.05) * rng.standard_normal(c["samples"])
+        for k in range(1, c.get("sweeps", 8) + 1):
             if c["kind"] == "cp_regressor":
                 est = CPRegressor(weight_rank=c["rank"], tol=0, reg_W=c["reg"], n_iter_max=k, random_state=c["seed"], verbose=0)
                 est.fit(X, y)
